@@ -605,13 +605,14 @@ def main() -> int:
 
 def solve_t_part(rep, tier: str) -> None:
     """Second part: the generated `solve_t` SOURCE executed symbolically under the real FortranEngine wrapper (checks/fsolve.py)."""
-    from checks.fsolve import PROGRAMS, TWINS, explore_fsolve, fsolve_configs
+    from checks.fsolve import FRANGE_TWINS, PROGRAMS, TWINS, explore_fany, frange_configs, fsolve_configs
     from gram.family import show
-    cfgs = fsolve_configs(tier)
+    cfgs = fsolve_configs(tier) + frange_configs(tier)
+    TWINS = TWINS + FRANGE_TWINS
     for i, c in enumerate(cfgs):
         c['seed'] = vlib.seed() * 1000003 + i
-    results = vlib.pmap(vlib.guarded(explore_fsolve), cfgs)
-    tw = vlib.pmap(vlib.guarded(explore_fsolve), TWINS)
+    results = vlib.pmap(vlib.guarded(explore_fany), cfgs)
+    tw = vlib.pmap(vlib.guarded(explore_fany), TWINS)
     tot = {'paths': 0, 'sat': 0, 'unsat': 0, 'unknown': 0, 'solver_s': 0.0, 'mismatch_paths': 0, 'spurious': 0}
     outcomes: Dict[str, int] = {}
     calls: Dict[str, int] = {}
@@ -633,9 +634,13 @@ def solve_t_part(rep, tier: str) -> None:
             calls[k] = max(calls.get(k, 0), v)
         for cand in r['candidates']:
             if cand['replay']['bad']:
-                key = (f"solve_t:{cfg['prog']},max_iter={cfg['B']},errors={cfg['errors']},failures={cfg['failures']},neg={cfg['neg']},"
-                       f"offset={cfg['offset']}:{cand['replay']['bad'][0][:90]}")
-                if cfg['B'] == 0:
+                if cfg['part'] == 'frange':
+                    key = (f"solve:{cfg['prog']},max_iter={cfg['B']},periods={cfg['n_periods']},errors={cfg['errors']},failures={cfg['failures']},"
+                           f"start={cfg['start']},end={cfg['end']}:{cand['replay']['bad'][0][:90]}")
+                else:
+                    key = (f"solve_t:{cfg['prog']},max_iter={cfg['B']},errors={cfg['errors']},failures={cfg['failures']},neg={cfg['neg']},"
+                           f"offset={cfg['offset']}:{cand['replay']['bad'][0][:90]}")
+                if cfg['B'] == 0 and cfg['part'] != 'frange':
                     key = 'solve_t:max_iter=0:' + cand['replay']['bad'][0][:90]
                 rep.violation(key, '; '.join(cand['replay']['bad'][:4]) + f" | Python engine: {cand['replay']['python_engine']}",
                               {'kind': 'fsolve', 'cfg': r['cfg'], 'inputs': cand['inputs'], 'text': cand['replay']['text'],
@@ -655,7 +660,7 @@ def solve_t_part(rep, tier: str) -> None:
         cov['queries'][k] = cov['queries'].get(k, 0) + tot[k]
     cov['solver_s'] = round(cov.get('solver_s', 0.0) + tot['solver_s'], 2)
     cov['functions_encoded'] = list(cov.get('functions_encoded', [])) + [
-        'generated Fortran SOURCE of solve_t and evaluate (parsed and executed by fsrc)', 'fsic.fortran.FortranEngine.solve_t (real code, on top)']
+        'generated Fortran SOURCE of solve, solve_t and evaluate (parsed and executed by fsrc)', 'fsic.fortran.FortranEngine.solve_t / solve (real code, on top)']
     cov['solve_t_part'] = {
         'configurations': len(cfgs), 'joint_paths': tot['paths'], 'mismatch_paths': tot['mismatch_paths'], 'spurious_under_uf': tot['spurious'],
         'models': {k: show(v) for k, v in PROGRAMS.items()},
@@ -663,10 +668,12 @@ def solve_t_part(rep, tier: str) -> None:
                    'span': 'lags + leads + 1 (+1) periods', 'positions': 'positive and negative', 'errors': ['raise', 'skip', 'ignore', 'replace'],
                    'failures': ['raise', 'ignore'], 'values': 'every finite Float64 per cell and pass'},
         'outcome_histogram': outcomes, 'subroutine_calls_max_per_config': calls, 'reachability_twin': twin_rep,
+        'solve_range': 'FortranEngine.solve() (generated `solve`, calling `solve_t` per period; 1..2 (3) feasible periods, default and explicit start/end incl. '
+                       'reversed) against the ordered sequence of FortranEngine.solve_t() calls on a twin: return triple, exception, statuses, iterations, every cell',
         'replay': 'gfortran -shared build of the same source through ctypes with f2py\'s signatures, under the real wrapper, beside the real Python engine',
     }
     cov['outside_claim'] = [x for x in cov.get('outside_claim', []) if not x.startswith('the compiled solve_t and solve')] + [
-        'the Fortran `solve` routine (multi-period loop) and FortranEngine.solve()', 'non-finite data in the Fortran loop (C07 is stated for finite data; the engines differ there by design: replace)',
+        'FortranEngine.solve() with offset != 0 and on spans longer than lags + leads + 3', 'non-finite data in the Fortran loop (C07 is stated for finite data; the engines differ there by design: replace)',
         'infeasible periods and index errors inside the Fortran routines (the wrapper reports them as FortranEngineError)',
         'gfortran\'s translation of the solve_t template to machine code (the SOURCE is interpreted; only counterexamples run on machine code)']
     rep.assumptions = sorted(set(rep.assumptions) | {a for r in results if 'harness_error' not in r for a in r['assumptions']})
